@@ -981,7 +981,7 @@ func main() {
 		c05LedgerWorker()
 		return
 	}
-	if len(os.Args) >= 4 && (os.Args[2] == "--replay" || os.Args[2] == "replay") {
+	if len(os.Args) >= 4 && (os.Args[2] == "--replay" || os.Args[2] == "-replay" || os.Args[2] == "replay") {
 		os.Exit(replay(os.Args[3]))
 	}
 	tier := common.Tier()
